@@ -263,6 +263,7 @@ pub enum OpCode {
 
     // ----- debugging ----------------------------------------------------------------------------
     Debug = 226,
+    Breakpoint = 229,
 
     // ----- event decorators ---------------------------------------------------------------------
     Emit = 227,
